@@ -5,6 +5,6 @@ def comp : Component Unit where
   init := ()
   step _ _ := ((), [], [])
   stepO := some RealAdapter.stepO
-  prop := RealAdapter.sameProp ["same-process", "fresh-process", "overlapping-run", "same-evaluator"]
+  prop := RealAdapter.sameProp ["same-process", "fresh-process", "overlapping-run", "same-evaluator", "without-loggers"]
 
 def main (args : List String) : IO Unit := Driver.main comp args
